@@ -67,11 +67,22 @@ theorem revert_restores (env : Env) (l : Led) (tx : Tx) (inv : Option String) :
   rw [snapshot_nil _ (start_journal l), revert_zero]
   exact (applyBxh_steps env (start l) tx inv (start_journal l)).faithful (faithful_self _ (start_journal l))
 
-/-- **C07 (storage)**: whatever the reason of the failure — rejected before execution, contract
-error, or a fee that cannot be paid after the transaction was fully processed — a transaction
-whose receipt is FAILED leaves every storage key of every contract as it was. -/
-theorem C07_failed_tx_storage_unchanged (env : Env) (l : Led) (tx : Tx) (inv : Option String)
-    (hfail : (applyTx env l tx inv).2.rcpt.ok = false) (hh : ¬ auditHole env (start l) tx) :
+/-- a failing transaction body hands back the ledger it started from -/
+def ErrKeeps (env : Env) (l : Led) (tx : Tx) (inv : Option String) : Prop :=
+  ∀ e, (applyBxh env (start l) tx inv).2.1 = .error e → (applyBxh env (start l) tx inv).1 = start l
+
+theorem errKeeps_of_noHole (env : Env) (l : Led) (tx : Tx) (inv : Option String)
+    (hh : ¬ auditHole env (start l) tx) : ErrKeeps env l tx inv :=
+  fun e he => applyBxh_error_ledger env (start l) tx inv (start_journal l) e he hh
+
+/-- a transaction rejected before execution (bad signature, rejected proof) never enters a contract -/
+theorem errKeeps_of_invalid (env : Env) (l : Led) (tx : Tx) (r : String) : ErrKeeps env l tx (some r) := by
+  intro e _
+  unfold applyBxh
+  rfl
+
+theorem failed_storage_core (env : Env) (l : Led) (tx : Tx) (inv : Option String)
+    (hfail : (applyTx env l tx inv).2.rcpt.ok = false) (hk : ErrKeeps env l tx inv) :
     ∀ k, (applyTx env l tx inv).1.getS k = l.getS k := by
   intro k
   unfold applyTx at hfail ⊢
@@ -88,7 +99,7 @@ theorem C07_failed_tx_storage_unchanged (env : Env) (l : Led) (tx : Tx) (inv : O
         rw [hr] at hfail
         simp [mkRcpt] at hfail
     obtain ⟨e, he⟩ := herr
-    have hl := applyBxh_error_ledger env (start l) tx inv (start_journal l) e he hh
+    have hl := hk e he
     have hs := payGasFee_store _ _ _ _ _ hfee
     show KV.get l2.finalise.store k = KV.get l.store k
     rw [finalise_store, hs]
@@ -99,10 +110,8 @@ theorem C07_failed_tx_storage_unchanged (env : Env) (l : Led) (tx : Tx) (inv : O
     rw [finalise_store, payLeft_store]
     exact hr
 
-/-- **C07 (balances)**: a FAILED transaction changes no balance except the sender's (fee) and the
-admins' (their shares). -/
-theorem C07_failed_tx_balances_unchanged (env : Env) (l : Led) (tx : Tx) (inv : Option String)
-    (hfail : (applyTx env l tx inv).2.rcpt.ok = false) (hh : ¬ auditHole env (start l) tx)
+theorem failed_balances_core (env : Env) (l : Led) (tx : Tx) (inv : Option String)
+    (hfail : (applyTx env l tx inv).2.rcpt.ok = false) (hk : ErrKeeps env l tx inv)
     (a : String) (hs : a ≠ tx.sender) (ha : a ∉ env.cfg.admins) :
     (applyTx env l tx inv).1.getBal a = l.getBal a := by
   unfold applyTx at hfail ⊢
@@ -119,7 +128,7 @@ theorem C07_failed_tx_balances_unchanged (env : Env) (l : Led) (tx : Tx) (inv : 
         rw [hr] at hfail
         simp [mkRcpt] at hfail
     obtain ⟨e, he⟩ := herr
-    have hl := applyBxh_error_ledger env (start l) tx inv (start_journal l) e he hh
+    have hl := hk e he
     have hb := payGasFee_getBal_other _ _ _ _ a _ hfee hs ha
     show Led.getBal l2.finalise a = _
     have : Led.getBal l2.finalise a = l2.getBal a := rfl
@@ -131,6 +140,22 @@ theorem C07_failed_tx_balances_unchanged (env : Env) (l : Led) (tx : Tx) (inv : 
     have : ∀ x : Led, Led.getBal x.finalise a = x.getBal a := fun _ => rfl
     rw [this, payLeft_getBal_other _ _ _ _ hs ha]
     exact hr
+
+/-- **C07 (storage)**: whatever the reason of the failure — rejected before execution, contract
+error, or a fee that cannot be paid after the transaction was fully processed — a transaction
+whose receipt is FAILED leaves every storage key of every contract as it was. -/
+theorem C07_failed_tx_storage_unchanged (env : Env) (l : Led) (tx : Tx) (inv : Option String)
+    (hfail : (applyTx env l tx inv).2.rcpt.ok = false) (hh : ¬ auditHole env (start l) tx) :
+    ∀ k, (applyTx env l tx inv).1.getS k = l.getS k :=
+  failed_storage_core env l tx inv hfail (errKeeps_of_noHole env l tx inv hh)
+
+/-- **C07 (balances)**: a FAILED transaction changes no balance except the sender's (fee) and the
+admins' (their shares). -/
+theorem C07_failed_tx_balances_unchanged (env : Env) (l : Led) (tx : Tx) (inv : Option String)
+    (hfail : (applyTx env l tx inv).2.rcpt.ok = false) (hh : ¬ auditHole env (start l) tx)
+    (a : String) (hs : a ≠ tx.sender) (ha : a ∉ env.cfg.admins) :
+    (applyTx env l tx inv).1.getBal a = l.getBal a :=
+  failed_balances_core env l tx inv hfail (errKeeps_of_noHole env l tx inv hh) a hs ha
 
 /-- **C07 (delivery set)**: a FAILED transaction carries no event, so it is never listed in the
 block's delivery set, does not reach the service cache and is not fed to the node/audit event
